@@ -18,7 +18,7 @@ func init() {
 		Level: "other",
 		Explanation: "Only the isolation clause of the statement is decided (`entries of one ledger never affect another ledger sharing the same database`), for every query the store can build and every SQL function of the schema. R04a: the ledger-partitioned tables are read from the migration (tables with a `ledger` column); in package ledgerstore every chain of bun.SelectQuery calls (followed through helper functions, Apply'd builders and phis) that names such a table as its FROM table carries a Where whose constant format is `[alias.]ledger = ?` bound to Store.name; joined tables must be keyed by a *_seq foreign key (unique across ledgers) or carry the predicate; SQL functions taking `_ledger` must be passed Store.name first. " +
 			"R04b: in the migration, every statement scope of every function that reads or updates a partitioned table contains `[alias.]ledger = _ledger|new.ledger` (or is keyed by accounts_seq / transactions_seq in the frozen list of sequence-keyed functions), inserts list the ledger column, handle_log passes new.ledger to every callee, and callers pass `_ledger` through. " +
-			"R04d (a necessary condition of the replay clause, not the clause): the running totals moves.post_commit_volumes / post_commit_effective_volumes are read from 'the latest move' — every selection over moves that keeps one row per group (ORDER BY … LIMIT 1, DISTINCT ON … ORDER BY …) in a referenced SQL function, an SQL text built in Go, or a bun chain (through Apply'd helpers) orders by the key under which the column it feeds is a running total, and that pairing is read from the writer (the function inserting into moves: seq for the first, effective_date, seq for the second); and the instant such a selection is cut at (`insertion_date|effective_date <= …`, also through Apply'd factories whose column is bound at the call site) is the instant of that ordering — predicates on an SQL parameter that no caller supplies are inert and listed. R04g (in-memory store): a loop that folds amounts into a balance is left only when its range is exhausted (no break / return inside). R04f (in-memory store): in the fold of postings into a balance, on every path of an iteration where the source test held the destination test is evaluated too (a posting from an account to itself is debited AND credited).",
+			"R04d (a necessary condition of the replay clause, not the clause): the running totals moves.post_commit_volumes / post_commit_effective_volumes are read from 'the latest move' — every selection over moves that keeps one row per group (ORDER BY … LIMIT 1, DISTINCT ON … ORDER BY …) in a referenced SQL function, an SQL text built in Go, or a bun chain (through Apply'd helpers) orders by the key under which the column it feeds is a running total, and that pairing is read from the writer (the function inserting into moves: seq for the first, effective_date, seq for the second); and the instant such a selection is cut at (`insertion_date|effective_date <= …`, also through Apply'd factories whose column is bound at the call site) is the instant of that ordering — predicates on an SQL parameter that no caller supplies are inert and listed. R04h (in-memory store): a record is selected by identity — the result of a big.Int Cmp is compared with 0 by == or != only, and a function that filters a collection takes element 0 of the filtered result. R04g (in-memory store): a loop that folds amounts into a balance is left only when its range is exhausted (no break / return inside). R04f (in-memory store): in the fold of postings into a balance, on every path of an iteration where the source test held the destination test is evaluated too (a posting from an account to itself is debited AND credited).",
 		NotDecided:  "everything else in the statement: equality of volumes/balances/metadata with a replay of the log, the point-in-time predicates, double entry. These are SQL/run-time value semantics (trigger insert_move, effective-date patching); no SQL analyser exists in the sandbox. R04d does not decide the arithmetic of the writer.",
 		Trusted:     []string{"bun renders Where/Join/TableExpr formats verbatim and binds ? arguments", "lexical scan of 0-init-schema.sql", "seq columns are bigserial primary keys, unique across ledgers"},
 		Assumptions: []string{"migrations_v1.go (one-shot import from the v1 per-ledger schema) is out of scope: it reads another schema, not the shared tables"},
@@ -29,6 +29,7 @@ func init() {
 		ruleR04d(c)
 		ruleR04f(c)
 		ruleFoldExaminesAll(c, "R04g")
+		ruleInMemoryIdentityLookups(c, "R04h")
 	})
 }
 
